@@ -43,7 +43,7 @@ def is_const(t):
 def mentions(t, pred):
     if not isinstance(t, tuple):
         return False
-    if pred(t):
+    if t and isinstance(t[0], str) and pred(t):
         return True
     return any(mentions(x, pred) for x in t if isinstance(x, tuple))
 
@@ -198,6 +198,32 @@ def simp(t):
         base, i = t[1], t[2]
         if base[0] in ("tup", "list") and is_const(i) and isinstance(i[1], int) and -len(base[1]) <= i[1] < len(base[1]):
             return base[1][i[1]]
+        if base[0] == "dict" and is_const(i) and all(is_const(k) for k, _ in base[1]):
+            hits = [v for k, v in base[1] if k == i and type(k[1]) is type(i[1])]
+            if hits:
+                return hits[-1]
+        if base[0] == "call" and base[1] == "dict" and len(base[2]) == 1 and not base[3]:
+            return simp(("idx", base[2][0], i))            # dict(d)[k] == d[k]
+        if is_const(base) and isinstance(base[1], dict) and is_const(i):
+            try:
+                if i[1] in base[1]:
+                    return C(base[1][i[1]])
+            except TypeError:
+                pass
+        if base[0] == "ite":
+            a, b = simp(("idx", base[2], i)), simp(("idx", base[3], i))
+            if a[0] != "idx" or b[0] != "idx":
+                return simp(("ite", base[1], a, b))
+        return t
+    if h == "mcall" and t[2] == "join" and is_const(t[1]) and isinstance(t[1][1], str) and len(t[3]) == 1 and not t[4]:
+        arg = t[3][0]
+        if arg[0] in ("list", "tup"):
+            out = None
+            for i, x in enumerate(arg[1]):
+                out = x if out is None else simp(("strcat", simp(("strcat", out, t[1])), x))
+            return out if out is not None else C("")
+        if arg[0] == "ite":
+            return simp(("ite", arg[1], simp(("mcall", t[1], "join", (arg[2],), ())), simp(("mcall", t[1], "join", (arg[3],), ()))))
         return t
     if h == "cat":
         a, b = t[1], t[2]
@@ -349,7 +375,8 @@ class State:
 class SymX:
     """Symbolic execution of one function (methods: with `self` bound to a concrete class)."""
 
-    def __init__(self, ctx, func, cls_name=None, inline_depth=3, no_inline=()):
+    def __init__(self, ctx, func, cls_name=None, inline_depth=3, no_inline=(), inline_foreign=False):
+        self.inline_foreign = inline_foreign      # also inline x.m(...) on other objects when m resolves to exactly one method
         self.ctx = ctx
         self.prog = ctx.prog
         self.func = func
@@ -856,6 +883,9 @@ class SymX:
                 return C(v)
             if ok and isinstance(v, (tuple, list)) and all(isinstance(x, (int, float, str, bool, type(None))) for x in v) and e.id not in f.mod.funcs:
                 return ("tup" if isinstance(v, tuple) else "list", tuple(C(x) for x in v))
+            if ok and isinstance(v, dict) and all(isinstance(k_, (int, str)) and isinstance(x, (int, float, str, bool, type(None))) for k_, x in v.items()) \
+                    and not self._module_object_modified(f.mod, e.id):
+                return ("dict", tuple((C(k_), C(x)) for k_, x in v.items()))
             return ("v", e.id)
         if isinstance(e, ast.Attribute):
             p = attr_path(e)
@@ -970,6 +1000,13 @@ class SymX:
         if name == "getattr" and len(args) == 2 and is_const(args[1]) and isinstance(args[1][1], str) and not kws:
             k_ = (args[0], args[1][1])
             return st.heap[k_] if k_ in st.heap else ("attr", args[0], args[1][1])
+        if name in ("os.path.join", "posixpath.join") and args and not kws and all(not (is_const(a) and (not isinstance(a[1], str) or a[1].startswith("/"))) for a in args):
+            out = args[0]
+            for a in args[1:]:
+                if not (is_const(out) and isinstance(out[1], str) and out[1].endswith("/")):
+                    out = simp(("strcat", out, C("/")))
+                out = simp(("strcat", out, a))
+            return out
         if name in ("map", "filter") and len(c.args) == 2 and not c.keywords and not any(isinstance(a, ast.Starred) for a in c.args):
             r = self._map_as_comprehension(c, name, st, f, depth)
             if r is not None:
@@ -1020,9 +1057,45 @@ class SymX:
             return self.inline(callees[0], args, kws, st, depth)
         if isinstance(c.func, ast.Attribute) and not name.startswith(("math.", "logging.", "random.", "copy.", "time.")):
             recv = ev(c.func.value)
+            if self.inline_foreign and len(callees) == 1 and callees[0].cls is not None and depth < self.inline_depth and not kws \
+                    and callees[0].name not in self.no_inline and not callees[0].node.args.vararg \
+                    and not any(isinstance(d, ast.Name) and d.id in ("staticmethod", "classmethod", "property") for d in callees[0].node.decorator_list):
+                m = callees[0]
+                npar = len(m.params) - 1
+                flat = []
+                stars = [a for a in args if a[0] == "star"]
+                if len(stars) == 1 and len(args) - 1 <= npar:
+                    k = npar - (len(args) - 1)
+                    for a in args:
+                        if a[0] == "star":
+                            flat.extend(simp(("idx", a[1], C(i))) for i in range(k))
+                        else:
+                            flat.append(a)
+                elif not stars:
+                    flat = list(args)
+                if flat or not args:
+                    saved = self.cls_name
+                    self.cls_name = m.cls.name
+                    try:
+                        return self.inline(m, (recv,) + tuple(flat), kws, st, depth)
+                    finally:
+                        self.cls_name = saved
             if callees or not isinstance(c.func.value, ast.Name) or c.func.value.id in st.env:
-                return ("mcall", recv, c.func.attr, args, kws)
+                return simp(("mcall", recv, c.func.attr, args, kws))
         return simp(("call", name, args, kws))
+
+    @staticmethod
+    def _module_object_modified(mod, name):
+        """A module-level object `name` is subscript-assigned, deleted from, or has a mutating method called on it anywhere in its module."""
+        for n in ast.walk(mod.tree):
+            if isinstance(n, ast.Subscript) and isinstance(n.ctx, (ast.Store, ast.Del)) and isinstance(n.value, ast.Name) and n.value.id == name:
+                return True
+            if isinstance(n, ast.Call) and isinstance(n.func, ast.Attribute) and isinstance(n.func.value, ast.Name) and n.func.value.id == name \
+                    and n.func.attr in ("update", "pop", "popitem", "clear", "setdefault", "__setitem__", "__delitem__"):
+                return True
+            if isinstance(n, ast.Global) and name in n.names:
+                return True
+        return False
 
     def _map_as_comprehension(self, c, name, st, f, depth):
         """map(fn, xs) == (fn(x) for x in xs); filter(fn, xs) == (x for x in xs if fn(x)) - evaluated as that generator."""
